@@ -33,6 +33,12 @@ class SrvRange(exc.JsonRpcError):
     message = 'server range error'
 
 
+class ZeroCode(exc.JsonRpcError):
+    """a typed error whose code is falsy"""
+    code = 0
+    message = 'zero code error'
+
+
 class PlainBase(exc.JsonRpcError):
     """a client-side base class without a code of its own and without lookup override"""
 
@@ -54,7 +60,7 @@ class IndepA(IndepBase):
 GLOBAL: Dict[int, Type[exc.JsonRpcError]] = {
     -32700: exc.ParseError, -32600: exc.InvalidRequestError, -32601: exc.MethodNotFoundError,
     -32602: exc.InvalidParamsError, -32603: exc.InternalError, -32000: exc.ServerError,
-    2001: Custom2001, 2002: Custom2002, 2003: Custom2003, 2004: Custom2004, -32050: SrvRange, 3001: IndepA,
+    2001: Custom2001, 2002: Custom2002, 2003: Custom2003, 2004: Custom2004, -32050: SrvRange, 3001: IndepA, 0: ZeroCode,
 }
 
 BY_NAME: Dict[str, Type[exc.JsonRpcError]] = {
@@ -62,11 +68,11 @@ BY_NAME: Dict[str, Type[exc.JsonRpcError]] = {
     'MethodNotFoundError': exc.MethodNotFoundError, 'InvalidParamsError': exc.InvalidParamsError,
     'InternalError': exc.InternalError, 'ServerError': exc.ServerError, 'Custom2001': Custom2001, 'Custom2002': Custom2002,
     'Custom2003': Custom2003, 'Custom2004': Custom2004, 'SrvRange': SrvRange, 'PlainBase': PlainBase, 'IndepBase': IndepBase,
-    'IndepA': IndepA,
+    'IndepA': IndepA, 'ZeroCode': ZeroCode,
 }
 
 TYPED = ['ParseError', 'InvalidRequestError', 'MethodNotFoundError', 'InvalidParamsError', 'InternalError', 'ServerError',
-         'Custom2001', 'Custom2002', 'Custom2003', 'Custom2004', 'SrvRange', 'IndepA']
+         'Custom2001', 'Custom2002', 'Custom2003', 'Custom2004', 'SrvRange', 'IndepA', 'ZeroCode']
 REGISTERED_CODES = sorted(GLOBAL)
 
 
